@@ -5,6 +5,7 @@
 //!   dv-query sql --ops FILE            (debug: print the SQL texts of each val op)
 mod c04;
 mod c04gen;
+mod c04u;
 mod c05;
 mod c05gen;
 mod util;
@@ -19,6 +20,7 @@ fn run(ops: &str, out: &str, stats_path: Option<&str>) {
     let mut stats = Stats::default();
     let mut case04: Option<c04::Case> = None;
     let mut case05: Option<c05::Case> = None;
+    let mut case04u: Option<c04u::UCase> = None;
     let mut case_index: i64 = -1;
     let mut first = true;
     let scratch = std::path::Path::new(out).parent().map(|p| p.to_path_buf()).unwrap_or_default().join("dbs");
@@ -33,10 +35,19 @@ fn run(ops: &str, out: &str, stats_path: Option<&str>) {
             "case" => {
                 case04 = None;
                 case05 = None;
+                case04u = None;
                 match (kv.get("id"), kv.get("e").map(|s| s.as_str())) {
                     (Some(id), Some("c04")) => match c04::Case::parse(&kv) {
                         Some(c) => {
                             case04 = Some(c);
+                            stats.inc("cases");
+                            format!("case {}", id)
+                        }
+                        None => "bad-op".into(),
+                    },
+                    (Some(id), Some("c04u")) => match c04u::UCase::parse(&kv) {
+                        Some(c) => {
+                            case04u = Some(c);
                             stats.inc("cases");
                             format!("case {}", id)
                         }
@@ -67,6 +78,16 @@ fn run(ops: &str, out: &str, stats_path: Option<&str>) {
                         }
                     }
                 }
+                None => "bad-op".into(),
+            },
+            "new" | "upd" => match case04u.as_mut() {
+                Some(c) => match std::panic::catch_unwind(std::panic::AssertUnwindSafe(|| c04u::step(c, &kind, &kv, &mut stats, &scratch))) {
+                    Ok(l) => l,
+                    Err(_) => {
+                        stats.inc("panics");
+                        "st=panic".into()
+                    }
+                },
                 None => "bad-op".into(),
             },
             "val" => match (&case04, c04::ValOp::parse(&kv)) {
